@@ -45,7 +45,9 @@ type Client struct {
 	closed   bool // read loop ended (server closed / we closed)
 	kicked   bool
 
-	NetId uint32 // learned from the first sentinel answer (0 = unknown)
+	NetId  uint32 // learned from the first sentinel answer (0 = unknown)
+	Front  int    // index of the front-end it is connected to (FrontNames)
+	sentBy string // the service that answered the last sentinel
 	// SlowRead makes the read loop pause this long after every data message (a slow client:
 	// the server-side send queue fills up)
 	SlowRead time.Duration
